@@ -9,7 +9,7 @@ CONSTANTS
   Reactions <- AllReactions
   HandlerReconnect = TRUE
   SrvMayStall = TRUE
-  ShutdownBoth = TRUE
+  ShutdownBoth = FALSE
   Fixed = TRUE
   Emit = FALSE
 PROPERTY InterruptLeadsToTermination
